@@ -1,5 +1,5 @@
 import Drand.Store.Mem
-namespace Drand.Driver
+namespace Drand.Driver.StoreD
 open Drand Drand.Store
 
 inductive AnyStore where
@@ -106,4 +106,4 @@ def storeStep (st : AnyStore) (f : List String) : AnyStore × String :=
       | .mem s => .mem ⟨s.cap, []⟩, "ok")
   | _ => (st, "bad-op")
 
-end Drand.Driver
+end Drand.Driver.StoreD
